@@ -223,6 +223,9 @@ pub struct Base {
     pub dead: Vec<u64>,
     pub size: u64,
     pub desc: String,
+    /// the /ID strings of the newest trailer
+    pub ids: Vec<Vec<u8>>,
+    pub has_info: bool,
 }
 
 fn entry_text(e: &Entry) -> String {
@@ -329,6 +332,7 @@ pub fn gen_base(rng: &mut Rng, o: BaseOpts) -> Base {
     let mut is_stream: BTreeSet<u64> = BTreeSet::new();
     let mut desc = String::new();
     let mut final_size = 0;
+    let mut newest_ids: Vec<Vec<u8>> = vec![];
     for rev in 0..nrev {
         let mut want_stream_fmt = match o.format { 1 => false, 2 => true, _ => rng.chance(1, 2) };
         let can_compress = o.compressed && o.format != 1;
@@ -424,6 +428,9 @@ pub fn gen_base(rng: &mut Rng, o: BaseOpts) -> Base {
         }
         if rng.chance(2, 3) {
             extra.push_str(" /ID [(ab) <cdef>]");
+            newest_ids = vec![b"ab".to_vec(), vec![0xcd, 0xef]];
+        } else {
+            newest_ids = vec![];
         }
         let prev = w.revisions.last().map(|r| r.xref_off);
         let xoff = w.finish(fmt, size, &extra, &cuts, xref_id);
@@ -455,7 +462,7 @@ pub fn gen_base(rng: &mut Rng, o: BaseOpts) -> Base {
     if !prefix.is_empty() {
         desc.push_str(&format!(" prefix={}", prefix.len()));
     }
-    Base { bytes: w.out.clone(), start: w.header_pos, startxref, objs, secs, expect, gens, values, updatable, streams: is_stream.into_iter().collect(), dead, size: final_size, desc }
+    Base { bytes: w.out.clone(), start: w.header_pos, startxref, objs, secs, expect, gens, values, updatable, streams: is_stream.into_iter().collect(), dead, size: final_size, desc, ids: newest_ids, has_info: info_id.is_some() }
 }
 
 // ---------------------------------------------------------------------------------------------------
@@ -1158,6 +1165,212 @@ fn histories(driver: &Driver, seed: u64, from: u64, to: u64, outside: bool) -> (
     (st, or)
 }
 
+// ---------------------------------------------------------------------------------------------------
+// byte-for-byte: the model renders what `save` appends (lean/PdfModel/Model/SaveBytes.lean)
+
+use crate::c03::render::{show_val, Val};
+
+/// a generated value in the notation of the byte model (reals as `f32::to_string` text); a stream gets
+/// the `/Length` that `Stream::to_pdf_stream` appends
+pub fn pval_to_val(v: &PVal, top: bool) -> Val {
+    let entries = |d: &[(String, PVal)]| -> Vec<(Vec<u8>, Val)> { d.iter().map(|(k, v)| (k.as_bytes().to_vec(), pval_to_val(v, false))).collect() };
+    match v {
+        PVal::Null => Val::Null,
+        PVal::Bool(b) => Val::Bool(*b),
+        PVal::Int(i) => Val::Int(*i),
+        PVal::Real(t) => Val::Real(format!("{}", t.parse::<f32>().unwrap())),
+        PVal::Str(s) => Val::Str(s.clone()),
+        PVal::Name(n) => Val::Name(n.as_bytes().to_vec()),
+        PVal::Arr(a) => Val::Arr(a.iter().map(|x| pval_to_val(x, false)).collect()),
+        PVal::Dict(d) => Val::Dict(entries(d)),
+        PVal::Ref(a, b) => Val::Ref(*a, *b),
+        PVal::Stream(d, data) => {
+            let _ = top;
+            let mut e = entries(d);
+            e.push((b"Length".to_vec(), Val::Int(data.len() as i64)));
+            Val::StreamPending(e, data.clone())
+        }
+    }
+}
+
+fn bytes_stream(driver: &Driver, seed: u64, n: u64) -> Stream {
+    let mut st = Stream::new("c09.bytes", true);
+    let mut reqs = vec![];
+    let mut imps = vec![];
+    for case in 0..n {
+        let mut rng = Rng::derive(seed, "c09.bytes", case);
+        let o = opts_for(&mut rng);
+        let base = gen_base(&mut rng, o);
+        let r = catch_unwind(AssertUnwindSafe(|| -> Result<(Vec<String>, Vec<String>), String> {
+            let mut ex = Exec::open(&base, NoCache, NoCache)?;
+            let mut ops: Vec<String> = vec![];
+            let mut ans: Vec<String> = vec![];
+            let mut known: Vec<u64> = base.updatable.clone();
+            let mut pending: Vec<u64> = vec![];
+            let mut touched: BTreeSet<u64> = BTreeSet::new();
+            let mut marker = 700_000u64;
+            let nops = 3 + rng.usize(9);
+            let mut saves = 0;
+            for step in 0..nops + 1 {
+                let last = step == nops;
+                let k = if last { 99 } else { rng.below(100) };
+                let mut fresh = |rng: &mut Rng, ex: &mut Exec<NoCache, NoCache>| -> (u64, Val) {
+                    marker += 1;
+                    let v = gen_val(rng, marker, true);
+                    let val = pval_to_val(&v, true);
+                    ex.values.insert(marker, v);
+                    (marker, val)
+                };
+                if k < 20 {
+                    let (m, val) = fresh(&mut rng, &mut ex);
+                    let (_, a, _) = ex.apply(&HOp::Create(m));
+                    if let Some((id, _)) = parse_ref(&a) { known.push(id); }
+                    ops.push(format!("c={}", show_val(&val)));
+                    ans.push(a);
+                } else if k < 55 && !known.is_empty() {
+                    let id = *rng.pick(&known);
+                    let (m, val) = fresh(&mut rng, &mut ex);
+                    let (_, a, _) = ex.apply(&HOp::Update(id, m, false));
+                    touched.insert(id);
+                    ops.push(format!("u={}={}", id, show_val(&val)));
+                    ans.push(a);
+                } else if k < 60 && !known.is_empty() && !base.streams.is_empty() {
+                    // a stream of the base read and written back under another number: `InFile`, not serialisable
+                    let id = *rng.pick(&known);
+                    let sid = *rng.pick(&base.streams);
+                    if touched.contains(&sid) { continue; }
+                    if let Some(Expect::Val(m)) = base.expect.get(&sid) {
+                        if let Some(PVal::Stream(d, _)) = base.values.get(m) {
+                            let info: Vec<(Vec<u8>, Val)> = d.iter().map(|(k, v)| (k.as_bytes().to_vec(), pval_to_val(v, false))).collect();
+                            let (_, a, _) = ex.apply(&HOp::Update(id, *m, true));
+                            touched.insert(id);
+                            ops.push(format!("u={}={}", id, show_val(&Val::StreamInFile(info, sid, 0, 0, 0))));
+                            ans.push(a);
+                        }
+                    }
+                } else if k < 68 {
+                    let (_, a, _) = ex.apply(&HOp::Promise);
+                    if let Some((id, _)) = parse_ref(&a) { pending.push(id); }
+                    ops.push("p".into());
+                    ans.push(a);
+                } else if k < 80 && !pending.is_empty() {
+                    let id = pending.remove(0);
+                    let (m, val) = fresh(&mut rng, &mut ex);
+                    let (_, a, _) = ex.apply(&HOp::Fulfil(id, m));
+                    known.push(id);
+                    ops.push(format!("f={}={}", id, show_val(&val)));
+                    ans.push(a);
+                } else if k >= 88 && (saves < 3 || last) {
+                    saves += 1;
+                    let before = ex.last_bytes.len();
+                    let (_, a, _) = ex.apply(&HOp::Save);
+                    ops.push("s".into());
+                    if a.starts_with("ok") {
+                        ans.push(format!("ok/{}", crate::driver::hex(&ex.last_bytes[before..])));
+                    } else {
+                        ans.push(a);
+                    }
+                }
+            }
+            Ok((ops, ans))
+        }));
+        let info = if base.has_info { show_val(&pval_to_val(&info_val(), false)) } else { "n".to_string() };
+        let ids = if base.ids.is_empty() { "-".to_string() } else { base.ids.iter().map(|s| show_val(&Val::Str(s.clone()))).collect::<Vec<_>>().join("~") };
+        match r {
+            Ok(Ok((ops, ans))) => {
+                st.count(&format!("saves={}", ans.iter().filter(|a| a.starts_with("ok/")).count()));
+                st.count(&format!("failed-saves={}", ops.iter().zip(ans.iter()).filter(|(o, a)| *o == "s" && !a.starts_with("ok/")).count()));
+                reqs.push(format!("c09.bytes {} {} {} {}", base.request_fields(), info, ids, if ops.is_empty() { "-".to_string() } else { ops.join(";") }));
+                imps.push(ans.join(";"));
+            }
+            _ => {
+                reqs.push(format!("c09.bytes {} {} {} -", base.request_fields(), info, ids));
+                imps.push("harness-error".into());
+            }
+        }
+    }
+    let resp = driver.ask(&reqs);
+    for ((rq, m), i) in reqs.iter().zip(resp.iter()).zip(imps.iter()) {
+        st.case(rq, m, i, i.contains("ok/"));
+    }
+    st
+}
+
+/// the byte-level open path of the model (`OpenBytes.openB`) on whole files — generated bases and what
+/// `save` made of them — against `Backend::read_xref_table_and_trailer`
+fn open_stream(driver: &Driver, seed: u64, n: u64) -> Stream {
+    use pdf::backend::Backend;
+    let mut st = Stream::new("c09.open", true);
+    let real = |bytes: &Vec<u8>| -> String {
+        let r = catch_unwind(AssertUnwindSafe(|| {
+            let start = match bytes.locate_start_offset() { Ok(s) => s, Err(_) => return "err".to_string() };
+            // a storage with an empty table: its resolver only serves the bytes of stream data
+            let helper = match Storage::with_cache(bytes.clone(), ParseOptions::strict(), NoCache, NoCache, NoLog) { Ok(s) => s, Err(_) => return "err".to_string() };
+            let rr = { let res = helper.resolver(); bytes.read_xref_table_and_trailer(start, &res) };
+            match rr {
+                Ok((t, tr)) => {
+                    let size = tr.get("Size").and_then(|p| p.as_integer().ok()).map(|x| x.to_string()).unwrap_or("?".into());
+                    let prev = match tr.get("Prev") { None => "n".to_string(), Some(p) => p.as_integer().map(|x| x.to_string()).unwrap_or("?".into()) };
+                    let es: Vec<String> = (0..t.len()).map(|i| match t.get(i as u64).unwrap() {
+                        XRef::Free { next_obj_nr, gen_nr } => format!("f.{}.{}", next_obj_nr, gen_nr),
+                        XRef::Raw { pos, gen_nr } => format!("r.{}.{}", pos, gen_nr),
+                        XRef::Stream { stream_id, index } => format!("s.{}.{}", stream_id, index),
+                        XRef::Promised => "P".into(),
+                        XRef::Invalid => "I".into(),
+                    }).collect();
+                    format!("ok {} {} {} {}", start, size, prev, es.join(","))
+                }
+                Err(_) => "err".to_string(),
+            }
+        }));
+        r.unwrap_or_else(|_| "panic".into())
+    };
+    let mut reqs = vec![];
+    let mut imps = vec![];
+    for case in 0..n {
+        let mut rng = Rng::derive(seed, "c09.open", case);
+        let o = opts_for(&mut rng);
+        let base = gen_base(&mut rng, o);
+        st.count("file=base");
+        reqs.push(format!("c09.open {}", crate::driver::hex(&base.bytes)));
+        imps.push(real(&base.bytes));
+        // one or two saves on top
+        let r = catch_unwind(AssertUnwindSafe(|| -> Vec<Vec<u8>> {
+            let mut out = vec![];
+            if let Ok(mut ex) = Exec::open(&base, NoCache, NoCache) {
+                let mut marker = 800_000u64;
+                for _ in 0..1 + rng.usize(2) {
+                    for _ in 0..1 + rng.usize(3) {
+                        marker += 1;
+                        let v = gen_val(&mut rng, marker, true);
+                        ex.values.insert(marker, v);
+                        if rng.chance(1, 2) || base.updatable.is_empty() {
+                            ex.apply(&HOp::Create(marker));
+                        } else {
+                            ex.apply(&HOp::Update(*rng.pick(&base.updatable), marker, false));
+                        }
+                    }
+                    let (_, a, _) = ex.apply(&HOp::Save);
+                    if a.starts_with("ok") {
+                        out.push(ex.last_bytes.clone());
+                    }
+                }
+            }
+            out
+        }));
+        for f in r.unwrap_or_default() {
+            st.count("file=saved");
+            reqs.push(format!("c09.open {}", crate::driver::hex(&f)));
+            imps.push(real(&f));
+        }
+    }
+    let resp = driver.ask(&reqs);
+    for ((rq, m), i) in reqs.iter().zip(resp.iter()).zip(imps.iter()) {
+        st.case(rq, m, i, i.starts_with("ok"));
+    }
+    st
+}
+
 /// `byte_len` through `write_stream`: a table whose largest field is `n` gets /W [1 byte_len(n) …]
 fn bytelen_stream(driver: &Driver, seed: u64, thorough: bool) -> Stream {
     let mut st = Stream::new("c09.bytelen", true);
@@ -1475,6 +1688,8 @@ pub fn run(driver: &Driver, seed: u64, thorough: bool, replay: Option<&Value>) -
     }
     rep.oracles.push(witnesses());
     rep.streams.push(bytelen_stream(driver, seed, thorough));
+    rep.streams.push(bytes_stream(driver, seed, if thorough { 20_000 } else { 1500 }));
+    rep.streams.push(open_stream(driver, seed, if thorough { 5_000 } else { 300 }));
     let (st, or) = histories(driver, seed, 0, if thorough { 60_000 } else { 6000 }, false);
     rep.streams.push(st);
     rep.oracles.push(or);
